@@ -73,6 +73,18 @@ CHECKS["C17"] = (
     "answer sets for closest/largest, order-independence of fragment matching, the matched-intensity fraction and coverage.",
     "Values live on grids where every float operation of the code is exact (stated in Match.tla); off-grid cases with a "
     "peak within 2e-9 of a window edge are not judged. binomial_score is not covered.", "DESIGN.md §6 C17")
+CHECKS["C02"] = (
+    "TLA+ first-principles mass model (Nist.tla independent atomic masses, Chem.tla residues/formula parser, Mods.tla "
+    "modification semantics, Mass.tla) with its laws model-checked (MC_Mass) + TLC trace validation of recorded "
+    "mass()/mz() calls and of a Unimod table sweep (Trace_Mass)",
+    "TLC model-checks the laws that keep the reference honest (z protons per charge, slot invariance, linear "
+    "multipliers, labile only for the precursor, static rule = explicit form, concatenation) and then recomputes, for "
+    "every recorded call of the real mass/mz, the expected value as residues + water + mods x multiplier + carriers + "
+    "isotope neutrons + loss in exact fixed-point arithmetic from an atomic-mass table typed independently of the "
+    "library's, and compares within the property's tolerances.",
+    "Assumes TLC, the 1e-9 fixed-point projection and the typed NIST table (cross-checked once against chem.txt, "
+    "S average corrected by hand). Named modifications are limited to a hand vocabulary with a-priori compositions; "
+    "all other Unimod entries are covered through their tabulated masses.", "DESIGN.md §6 C02")
 NOT_YET = "check not built yet in this round (planned with the TLA+ technique, see DESIGN.md §6)"
 
 
